@@ -84,6 +84,10 @@ def gen_zone(rng, cur, kind, keys, n, ext, grid=True):
         gov['money'] = rng.random() < 0.5
     if gov['deposits']:
         gov['r'] = [rng.choice([0.0, 0.01, 0.02, 0.025, 0.04]) for _ in range(n)]
+    if form in ('treasury_cb', 'gold_cb') and rng.random() < 0.4:
+        # the treasury keeps a cash balance from some period on (its money demand is 0.0 by default)
+        cut = rng.randint(1, 3)
+        gov['tre_cash'] = [0.0] * cut + [float(rng.randint(2, 9))] * (n - cut)
     countries = []
     if kind == 'single':
         countries.append(gen_country(rng, keys[0], 'single', n, gov['deposits'], grid))
@@ -92,6 +96,8 @@ def gen_zone(rng, cur, kind, keys, n, ext, grid=True):
         for k in keys[1:]:
             c = gen_country(rng, k, 'region', n, gov['deposits'], grid)
             countries.append(c)
+    if kind == 'federation' and rng.random() < 0.5:
+        gov['asset_markets_in'] = keys[1]      # money / deposit markets declared in a region, the issuer elsewhere
     z = {'cur': cur, 'kind': kind, 'xr': xr_path(rng, n) if ext else None, 'gov': gov, 'countries': countries,
          'internal_imports': []}
     if kind == 'federation':
@@ -315,13 +321,16 @@ def _build(spec, model=None, holder=None, order_seed=None, codes=None, ckey_map=
                 steps.append(('TF', [], lambda country=country, ck=ck, g=g, gc=gc: S.__setitem__(
                     (ck, 'TF'), TaxFlow(country, code(ck, 'TF'), 'TaxFlow', taxrate=g['tax'],
                                         taxes_paid_to=code(ck, gc)))))
+            amk = g.get('asset_markets_in') or central_key
+            if ck == amk:
+                gc0 = gov_code(g['form'])
                 if g['money']:
                     issuer = 'CB' if g['form'] in ('treasury_cb', 'gold_cb') else 'GOV'
-                    steps.append(('MON', [], lambda country=country, ck=ck, issuer=issuer: S.__setitem__(
-                        (ck, 'MON'), MoneyMarket(country, issuer_short_code=code(ck, issuer)))))
+                    steps.append(('MON', [], lambda country=country, issuer=issuer, ckc=central_key: S.__setitem__(
+                        (ckc, 'MON'), MoneyMarket(country, issuer_short_code=code(ckc, issuer)))))
                 if g['deposits']:
-                    steps.append(('DEP', [], lambda country=country, ck=ck, gc=gc: S.__setitem__(
-                        (ck, 'DEP'), DepositMarket(country, issuer_short_code=code(ck, gc)))))
+                    steps.append(('DEP', [], lambda country=country, gc0=gc0, ckc=central_key: S.__setitem__(
+                        (ckc, 'DEP'), DepositMarket(country, issuer_short_code=code(ckc, gc0)))))
             if c['role'] in ('single', 'region'):
                 hh = c['hh']
                 hcls = Household if hh['form'] == 'Household' else HouseholdWithExpectations
@@ -406,6 +415,8 @@ def _build(spec, model=None, holder=None, order_seed=None, codes=None, ckey_map=
             ext['XR'].SetExogenous(z['cur'], list(z['xr']))
         if g['deposits'] and g['r'] is not None:
             S[(gkey, 'DEP')].SetExogenous('r', list(g['r']))
+        if g.get('tre_cash') is not None:
+            S[(gkey, 'TRE')].SetExogenous('DEM_MON', list(g['tre_cash']))
         regions = [c for c in z['countries'] if c['role'] != 'central']
         dem_terms = []
         for c in regions:
